@@ -1747,7 +1747,7 @@ type srl struct {
 func (op *srl) Run(ctx *Context, _ map[string]int32, pc int32, memory []int8, sequenceID int32) (Execution, error) {
 	rs1 := registerRead(ctx, op.forward, op.rs1, sequenceID)
 	rs2 := registerRead(ctx, op.forward, op.rs2, sequenceID)
-	register, value := IsRegisterChange(op.rd, rs1>>rs2)
+	register, value := IsRegisterChange(op.rd, int32(uint32(rs1)>>(uint32(rs2)&31)))
 	return Execution{
 		RegisterChange: true,
 		Register:       register,
@@ -1788,7 +1788,7 @@ type srli struct {
 
 func (op *srli) Run(ctx *Context, _ map[string]int32, pc int32, memory []int8, sequenceID int32) (Execution, error) {
 	rs := registerRead(ctx, op.forward, op.rs, sequenceID)
-	register, value := IsRegisterChange(op.rd, rs>>op.imm)
+	register, value := IsRegisterChange(op.rd, int32(uint32(rs)>>(uint32(op.imm)&31)))
 	return Execution{
 		RegisterChange: true,
 		Register:       register,
